@@ -93,8 +93,8 @@ def box(tier, seed=0, cap=None):
     for i, base in enumerate(mj):
         m = base["max_useful_life"]
         c0s = [tuple([0.0] * (m - 1)), tuple([1.0, 0.5, 0.25, 0.125][: m - 1])]
-        c1s = [tuple([0.0] * (m - 1)), tuple([0.4] * (m - 1)), tuple([-0.4] * (m - 1))]
-        combos = list(itertools.product(c0s, c1s, wk, mc_)) if not quick else [(c0s[(i + j) % 2], c1s[(i + j + seed) % 3], wk[(i + j) % 2], mc_[(i + j + 1) % 2]) for j in range(2)]
+        c1s = [tuple([0.0] * (m - 1)), tuple([0.4] * (m - 1)), tuple([-0.4] * (m - 1)), tuple([0.4, -0.2, 0.3, -0.1][: m - 1])]
+        combos = list(itertools.product(c0s, c1s, wk, mc_)) if not quick else [(c0s[(i + j) % 2], c1s[(i + 3 * j + seed) % 4], wk[(i + j) % 2], mc_[(i + j + 1) % 2]) for j in range(2)]
         for c0, c1, w, c in combos:
             if m == 1 and (any(c0) or any(c1)):
                 continue
